@@ -1238,10 +1238,10 @@ def run(ctx):
             c = json.load(open(f))
             c['_corpus'] = os.path.basename(f)
             cases.append(c)
-        na, nl, nbig = ctx.scale(400, 5000), ctx.scale(320, 4000), ctx.scale(5, 60)
+        na, nl, nbig = ctx.scale(340, 5000), ctx.scale(280, 4000), ctx.scale(4, 60)
         cases += [gen_case_A(rng) for _ in range(na)] + [gen_case_L(rng) for _ in range(nl)]
         cases += [gen_case_A(rng, big=True) for _ in range(nbig)] + [gen_case_L(rng, big=True) for _ in range(nbig)]
-        cases += [gen_case_R(rng) for _ in range(ctx.scale(24, 400))]
+        cases += [gen_case_R(rng) for _ in range(ctx.scale(20, 300))]
     terms, meta = [], []
     for c in cases:
         pub = strip(c)
@@ -1262,7 +1262,7 @@ def run(ctx):
                 ctx.count('R_request_' + ('auto_mode' if any(p['kind'] == 'auto' for p in rec['passes']) else 'imposed_mode'))
                 ctx.count('R_request_blocking_' + str(rec['blocking']))
                 ctx.count('R_passes_Z_to_A', sum(p['direction'] == 'Z->A' for p in rec['passes']))
-            to_model = set(ctx.rng.sample(range(len(vs)), min(len(vs), ctx.scale(5, 12))))     # oracle: all; model: a sample
+            to_model = set(ctx.rng.sample(range(len(vs)), min(len(vs), ctx.scale(4, 10))))     # oracle: all; model: a sample
             for iv, (view, xd, rec, tag) in enumerate(vs):
                 ctx.count('R_crossings_in_force')
                 ctx.count('R_crossings_nonzero_mode_offset', int(rec['off'][0] != 0))
